@@ -158,6 +158,11 @@ func (g *Gen) Expr(d int) string {
 			if g.R.Pct(30) {
 				s += " else if " + g.Expr(d-1) + " " + g.Block(d)
 			}
+			if g.O.Comments && g.R.Pct(25) {
+				// an else block that holds only a comment and an if: compact mode drops the comment
+				s += " else { " + g.pick([]string{"// ce\n", "/* ce */ ", "/* ce */\n"}) + "if " + g.Expr(d-1) + " " + g.Block(d) + g.pick([]string{"", " // te\n", " /* te */"}) + " }"
+				return s
+			}
 			s += " else " + g.Block(d)
 		}
 		return s
@@ -244,6 +249,13 @@ func (g *Gen) Stmts(d, n int, inBlock bool) string {
 		if g.O.Comments && g.R.Pct(12) {
 			fmt.Fprintf(&b, " // t%d\n", i)
 			continue
+		}
+		if g.O.Comments && g.R.Pct(10) {
+			// a block comment after the statement on the same line (also right before a closing brace)
+			fmt.Fprintf(&b, " /* e%d */", i)
+			if i == n-1 {
+				continue
+			}
 		}
 		if i < n-1 || g.R.Pct(50) {
 			b.WriteString(g.pick([]string{"\n", ";", "; ", "\n\n", " ;\n"}))
